@@ -2,6 +2,7 @@
 #define PHOTOSPLINE_FITSIO_H
 
 #include <string.h>
+#include <sys/stat.h>
 #include <cmath>
 #include <limits>
 
@@ -464,13 +465,40 @@ void splinetable<Alloc>::write_fits(const std::string& filePath) const{
 		fitsfile* fits;
 		fits_cleanup(fitsfile* f):fits(f){}
 		~fits_cleanup(){
+			if(!fits)
+				return;
+			//something went wrong; do not leave an incomplete file behind
 			int error=0;
-			fits_close_file(fits, &error);
+			fits_delete_file(fits, &error);
 			fits_report_error(stderr, error);
 		}
 	} cleanup(fits);
 	
 	write_fits_core(fits);
+	
+	//Much of the data only reaches the file when it is closed, so a failure
+	//to close is a failure to write. cfitsio does not report a failure of the
+	//very last flush, so note how long the file has to be and check afterwards.
+	LONGLONG expected_size = 0;
+	{
+		int nhdus=0, type;
+		LONGLONG headstart, datastart;
+		fits_get_num_hdus(fits, &nhdus, &error);
+		fits_movabs_hdu(fits, nhdus, &type, &error);
+		fits_get_hduaddrll(fits, &headstart, &datastart, &expected_size, &error);
+	}
+	cleanup.fits=NULL;
+	fits_close_file(fits, &error);
+	if (error != 0){
+		fits_report_error(stderr, error);
+		remove(filePath.c_str());
+		throw std::runtime_error("CFITSIO failed to write "+filePath+" completely: Error "+std::to_string(error));
+	}
+	struct stat file_info;
+	if (stat(filePath.c_str(), &file_info) != 0 || file_info.st_size < expected_size){
+		remove(filePath.c_str());
+		throw std::runtime_error("Failed to write "+filePath+" completely: the file is shorter than the data written to it");
+	}
 }
 	
 template<typename Alloc>
@@ -488,10 +516,15 @@ std::pair<void*,size_t> splinetable<Alloc>::write_fits_mem() const{
 	try{
 		fits_create_memfile(&fits, &buf, &memsize, FITS_blocksize, realloc, &error);
 		
+		if (error != 0)
+			throw std::runtime_error("CFITSIO failed to create a memory 'file'");
+		
 		struct fits_cleanup{
 			fitsfile* fits;
 			fits_cleanup(fitsfile* f):fits(f){}
 			~fits_cleanup(){
+				if(!fits)
+					return;
 				int error=0;
 				fits_close_file(fits, &error);
 				fits_report_error(stderr, error);
@@ -499,7 +532,13 @@ std::pair<void*,size_t> splinetable<Alloc>::write_fits_mem() const{
 		} cleanup(fits);
 		
 		write_fits_core(fits);
+		
+		cleanup.fits=NULL;
+		fits_close_file(fits, &error);
+		if (error != 0)
+			throw std::runtime_error("CFITSIO failed to complete the memory 'file': Error "+std::to_string(error));
 	}catch(std::exception& ex){
+		free(buf);
 		throw std::runtime_error("Failed to write FITS memory 'file': \n"+std::string(ex.what()));
 	}
 	
@@ -518,20 +557,11 @@ void splinetable<Alloc>::write_fits_core(fitsfile* fits) const{
 	 */
 	{
 		std::unique_ptr<long[]> naxes(new long[ndim]);
-		uint64_t nelements=1;
-		for(uint32_t i=0; i<ndim; i++) {
+		for(uint32_t i=0; i<ndim; i++)
 			naxes[i] = this->naxes[ndim - i - 1];
-			nelements *= naxes[i];
-		}
 		fits_create_img(fits, FLOAT_IMG, ndim, naxes.get(), &error);
 		if (error != 0)
 			throw std::runtime_error("Failed to create FITS image for spline coefficients");
-	
-		std::unique_ptr<long[]> fpixel(new long[ndim]);
-		std::fill_n(fpixel.get(),ndim,1L);
-		fits_write_pix(fits, TFLOAT, fpixel.get(), nelements, &coefficients[0], &error);
-		if (error != 0)
-			throw std::runtime_error("Failed to write coefficients to FITS image");
 	}
 	
 	// Write out header information
